@@ -106,8 +106,13 @@ def run(ctx):
         seed = ctx.rng.randint(0, 10**9)
         a = npc.Experiment(group, [[0.0]] * n); b = npc.Experiment(group, [[0.0]] * n)
         a.randomize(seed=seed); b.randomize(seed=seed)
+        first = b.group.tolist()
+        # the same object again, started from the same assignment with the same seed (after some unseeded use)
+        for _k in range(ctx.rng.randint(0, 2)):
+            b.randomize()
+        b.group = np.array(group, dtype=object); b.randomize(seed=seed)
         ctx.case(("repro", tuple(group), seed), True); ctx.count("seeded-reproducible")
-        if a.group.tolist() != b.group.tolist():
+        if a.group.tolist() != first or b.group.tolist() != first:
             ctx.violation("oracle", {"call": "Experiment.randomize", "group": group, "seed": seed, "issue": "seeded randomisation from the same assignment is not reproducible"}, site="Experiment")
     # ---- type checks
     e = npc.Experiment([0, 1], [[1.0], [2.0]])
